@@ -106,6 +106,29 @@ class SymEngine:
         return res, fr['converged'], fr['iteration'], fr['error_code']
 
 
+def _engine_solve(self, values, indexes, min_iter, max_iter, tol, offset, convergence_variables, failure_control, error_control):
+    nrows, ncols = values.shape
+    A = fsrc.FArr([nrows, ncols], [values[i, j] for j in range(ncols) for i in range(nrows)])
+    out = fsrc.FArr.full([nrows, ncols], None)
+    idx = list(indexes)
+    n = len(idx)
+    conv = fsrc.FArr.full([n], None)
+    its = fsrc.FArr.full([n], None)
+    codes = fsrc.FArr.full([n], None)
+    self.mod.call('solve', dict(initial_values=A, indexes=fsrc.FArr.of_list(idx), min_iter=min_iter, max_iter=max_iter, tol=tol, offset=offset,
+                                convergence_variables=fsrc.FArr.of_list(list(convergence_variables)), failure_control=failure_control,
+                                error_control=error_control, solved_values=out, convergence_results=conv, iterations=its,
+                                solution_error_codes=codes, nrows=nrows, ncols=ncols, nvars=len(list(convergence_variables)), nperiods=n))
+    res = np.empty((nrows, ncols), dtype=object)
+    for j in range(ncols):
+        for i in range(nrows):
+            res[i, j] = out.get([i + 1, j + 1])
+    return res, list(conv.data), list(its.data), list(codes.data)
+
+
+SymEngine.solve = _engine_solve
+
+
 def cfgf(**kw) -> dict:
     c = dict(part='fsolve', prog='feedback', B=2, errors='raise', failures='raise', extra=1, t_off=0, neg=False, offset='zero',
              min_iter='sym', twin=None)
@@ -191,6 +214,8 @@ def explore_fsolve(cfg: dict, replay_inputs=None) -> dict:
             out.update(kind='ret', ret=r, exc=None)
         except fsrc.FBounds as e:
             out.update(kind='exc', ret=None, exc='OutOfBounds', msg=str(e))
+        except fsrc.FUnsupported:
+            raise       # Fortran the interpreter does not model: inconclusive, never a verdict
         except Exception as e:  # noqa: BLE001
             out.update(kind='exc', ret=None, exc=type(e).__name__, msg=str(e)[:160])
         out['status'], out['iters'] = str(m.status[t]), int(m.iterations[t])
@@ -376,6 +401,196 @@ def explore_fsolve(cfg: dict, replay_inputs=None) -> dict:
     res['shim_calls'] = dict(fmod.calls)
     res['wall_s'] = round(time.time() - t_start, 3)
     return res
+
+
+def explore_frange(cfg: dict, replay_inputs=None) -> dict:
+    """Third part: FortranEngine.solve() (the generated `solve` routine, which calls `solve_t` per period) against the
+    ordered sequence of FortranEngine.solve_t() calls on a twin -- C05's law for the Fortran engine.  Together with the
+    second part (solve_t == specification) this ties the multi-period routine to the specification."""
+    t_start = time.time()
+    Py, fsource, fmod, text = _built(cfg['prog'])
+    FE = type('FE', (ff.FortranEngine, Py), {'ENGINE': SymEngine(fmod)})
+    names = list(Py.NAMES)
+    B = cfg['B']
+    L = Py.LAGS + Py.LEADS + cfg['n_periods']
+    span = list(range(1990, 1990 + L))
+    ctx = Ctx(budget_s=900)
+    if cfg['min_iter'] == 'sym':
+        ctx.assume(z3.And(z3.Int('min_iter') >= 0, z3.Int('min_iter') <= B + 1), f'0 <= min_iter <= max_iter+1 = {B + 1}')
+    holder: Dict[str, Any] = {}
+    twin = cfg.get('twin')
+    native: Dict[str, Any] = {}
+    check = list(Py.CHECK)
+
+    def native_class():
+        if 'cls' not in native:
+            cd = fir.compile_dump(fsource, want_so=True)
+            native['eng'] = fir.NativeEvaluate(cd['so_bytes'])
+            native['cls'] = type('FN', (ff.FortranEngine, Py), {'ENGINE': native['eng']})
+        return native['cls']
+
+    def outcome(fn):
+        try:
+            with warnings.catch_warnings():
+                warnings.simplefilter('ignore')
+                return ('ret', fn())
+        except fsrc.FBounds as e:
+            return ('exc', 'OutOfBounds', str(e))
+        except fsrc.FUnsupported:
+            raise
+        except Exception as e:  # noqa: BLE001
+            return ('exc', type(e).__name__, str(e)[:120])
+
+    def run(src, symbolic: bool):
+        M = FE if symbolic else native_class()
+        models = []
+        for _ in range(2):
+            m = M(list(span), dtype=object if symbolic else float)
+            for n in names:
+                for j in range(L):
+                    m.__dict__['_' + n][j] = src.f(f'{n}_{j}')
+            models.append(m)
+        m1, m2 = models
+        if symbolic:
+            for n in check:
+                for j in range(L):
+                    cur().require(m1.__dict__['_' + n][j].isfinite().t)
+        tol = src.f('tol')
+        min_iter = src.i('min_iter') if cfg['min_iter'] == 'sym' else cfg['min_iter']
+        kw = dict(min_iter=min_iter, max_iter=B, tol=tol, errors=cfg['errors'], failures=cfg['failures'])
+        rng = {}
+        if cfg['start'] is not None:
+            rng['start'] = span[cfg['start']]
+        if cfg['end'] is not None:
+            rng['end'] = span[cfg['end']]
+        with (shimmed() if symbolic else np.errstate(all='ignore')):
+            a = outcome(lambda: m1.solve(**rng, **kw))
+            # the twin: single-period solves over the range the statement gives
+            lo = Py.LAGS if cfg['start'] is None else cfg['start']
+            hi = L - 1 - Py.LEADS if cfg['end'] is None else cfg['end']
+            if twin == 'skip_last':
+                hi -= 1
+
+            def loop():
+                labs, poss, flags = [], [], []
+                for t in range(lo, hi + 1):
+                    flags.append(m2.solve_t(t, **kw))
+                    labs.append(span[t])
+                    poss.append(t)
+                return labs, poss, flags
+
+            if bool(min_iter > B):
+                b = ('exc', 'ValueError', '')
+            else:
+                b = outcome(loop)
+        if symbolic:
+            # finite data only: every check value of the twin stays finite
+            for n in check:
+                for j in range(L):
+                    v = m2.__dict__['_' + n][j]
+                    if isinstance(v, SFloat):
+                        cur().require(v.isfinite().t)
+        bad: List[str] = []
+        if a[0] != b[0]:
+            bad.append(f'solve() {a[:2]} but the sequence of solve_t() calls {b[:2]}')
+        elif a[0] == 'exc' and a[1] != b[1]:
+            bad.append(f'solve() raised {a[1]}, the sequence of solve_t() calls {b[1]}')
+        elif a[0] == 'ret':
+            (la, pa, fa), (lb, pb, fb) = a[1], b[1]
+            if list(la) != list(lb) or list(pa) != list(pb):
+                bad.append(f'periods {list(la)} / {list(pa)} vs {list(lb)} / {list(pb)}')
+            elif [bool(x) for x in fa] != [bool(x) for x in fb]:
+                bad.append(f'solved flags {list(fa)} vs {list(fb)}')
+        s1, s2 = [str(x) for x in m1.status], [str(x) for x in m2.status]
+        i1, i2 = [int(x) for x in m1.iterations], [int(x) for x in m2.iterations]
+        if s1 != s2:
+            bad.append(f'statuses {s1} vs {s2}')
+        if i1 != i2:
+            bad.append(f'iterations {i1} vs {i2}')
+        terms = []
+        for n in names:
+            for j in range(L):
+                x, y = m1.__dict__['_' + n][j], m2.__dict__['_' + n][j]
+                if symbolic:
+                    xt = x.t if isinstance(x, SFloat) else fpval(float(x))
+                    yt = y.t if isinstance(y, SFloat) else fpval(float(y))
+                    if not xt.eq(yt) and cur()._check(xt != yt) == 'sat':
+                        bad.append(f'cell {n}[{j}] differs')
+                        terms.append(xt != yt)
+                elif not lf._same_bits(float(x), float(y)):
+                    bad.append(f'cell {n}[{j}] solve()={float(x)!r} sequence={float(y)!r}')
+        return bad, terms, {'solve': a[:2] if a[0] == 'exc' else ('ret', [list(map(str, a[1][0])), list(a[1][1]), [bool(x) for x in a[1][2]]]), 'status': s1, 'iters': i1}
+
+    if replay_inputs is not None:
+        try:
+            cb, _, cout = run(ConSrc(replay_inputs), False)
+            return {'bad': cb, 'impl': cout, 'python_engine': None}
+        finally:
+            if 'eng' in native:
+                native['eng'].close()
+
+    def fn():
+        src = SymSrc()
+        holder['src'] = src
+        return run(src, True)
+
+    res: Dict[str, Any] = {'cfg': dict(cfg), 'paths': 0, 'mismatch_paths': 0, 'candidates': [], 'outcomes': {}, 'witness_checked': 0,
+                           'witness_bad': [], 'spurious_under_uf': 0, 'nontrivial_paths': 0}
+    try:
+        for path in ctx.explore(fn):
+            res['paths'] += 1
+            if path.outcome[0] == 'exc':
+                raise RuntimeError(f'harness raised on a path: {path.outcome[1]!r}')
+            bad, terms, out = path.outcome[1]
+            res['nontrivial_paths'] += 1
+            okey = f"{out['solve'][0]}:{out['solve'][1] if out['solve'][0] == 'exc' else ''}:{''.join(out['status'])}"
+            res['outcomes'][okey] = res['outcomes'].get(okey, 0) + 1
+            if bad:
+                res['mismatch_paths'] += 1
+                if len(res['candidates']) >= 2:
+                    continue
+                inp = witness(ctx, holder['src'], [z3.Or(*terms)] if terms and len(terms) == len(bad) else [], timeout_ms=8000, uf_fallback=True)
+                if inp is None:
+                    res['spurious_under_uf'] += 1
+                    continue
+                cb, _, cout = run(ConSrc(inp), False)
+                res['candidates'].append({'symbolic': bad, 'inputs': inp, 'replay': {'bad': cb, 'impl': cout, 'ref': None, 'python_engine': None, 'text': text}})
+    finally:
+        if 'eng' in native:
+            native['eng'].close()
+    res['exhausted'] = ctx.exhausted
+    res['smt_samples'] = list(ctx.samples)
+    res['stats'] = ctx.stats.as_dict()
+    res['assumptions'] = list(ctx.assumptions) + ['every check value (pre-existing and after each pass) finite [C07 is stated for finite data]']
+    res['shim_calls'] = dict(fmod.calls)
+    res['wall_s'] = round(time.time() - t_start, 3)
+    return res
+
+
+def frange_configs(tier: str) -> List[dict]:
+    out = []
+    for prog in ('feedback', 'slowlast', 'laglead', 'pair'):
+        for n_periods in (1, 2) if tier == 'quick' else (1, 2, 3):
+            for B in (1, 2) if tier == 'quick' else (0, 1, 2):
+                if n_periods == 3 and (B > 1 or prog == 'pair'):
+                    continue
+                for errors, failures in (('raise', 'raise'), ('raise', 'ignore'), ('skip', 'ignore'), ('ignore', 'raise')):
+                    if tier == 'quick' and (errors, failures) == ('ignore', 'raise'):
+                        continue
+                    out.append(dict(part='frange', prog=prog, B=B, n_periods=n_periods, errors=errors, failures=failures, start=None, end=None,
+                                    min_iter='sym', twin=None))
+        # explicit start / end (positions inside the feasible range), reversed range
+        out.append(dict(part='frange', prog=prog, B=1, n_periods=3, errors='raise', failures='ignore', start=None, end=None, min_iter=0, twin=None))
+    for start, end in ((1, 1), (0, 1), (1, 0), (None, 0), (1, None)):
+        out.append(dict(part='frange', prog='feedback', B=1, n_periods=2, errors='raise', failures='ignore', start=start, end=end, min_iter='sym', twin=None))
+    return out
+
+
+FRANGE_TWINS = [dict(part='frange', prog='feedback', B=1, n_periods=2, errors='raise', failures='ignore', start=None, end=None, min_iter=0, twin='skip_last')]
+
+
+def explore_fany(cfg: dict, replay_inputs=None) -> dict:
+    return explore_frange(cfg, replay_inputs) if cfg.get('part') == 'frange' else explore_fsolve(cfg, replay_inputs)
 
 
 def fsolve_configs(tier: str) -> List[dict]:
